@@ -42,6 +42,10 @@ THEOREMS_CLOSED3 = [
     "Ymq.C01.factor_exact_closed_v3",
     "Ymq.C01.factor_total_closed_v3",
     "Ymq.C01.pp_none_not_tried_power",
+    "Ymq.C01.rho_call_sites_total",
+    "Ymq.C01.rho_join_harmless",
+    "Ymq.C01.pp_join_harmless",
+    "Ymq.C01.rho_model_exact_on_guard",
     "Ymq.C01.rho_call_sites_return",
 ]
 MODELLED = ["pollard_rho.rs rho (budget table by bit length, c = 1..9, first success) and rho_semiprime (three windows, or_else chains) line by line over the "
@@ -143,6 +147,58 @@ BUDGET = {24: [9097471, 9491639], 32: [2382236371, 2737483079], 40: [62188617842
           64: [9694263783331916101, 13006189075539673571]}
 # same for the three windows of rho_semiprime
 SEMI_BUDGET = {40: [1003284248773, 836642950411], 48: [142141810893479, 164222876983073], 56: [44265665937497101, 40741448522010157]}
+# budget-sensitive per (row of the budget table, polynomial c): with the real budget polynomials 1..c-1 fail and c succeeds; with HALF the budget
+# the answer of rho differs (`_verify_literals` re-checks every claim with the mirror). Found once by a deterministic search with a C copy of
+# the mirror over balanced semiprimes. A change of one row's budget, or of the polynomial order, flips at least one of these answers.
+BUDGET_BY_C = {
+    24: {2: 11867497, 3: 13021153, 4: 12655883, 5: 16090567, 6: 9685253},
+    32: {2: 3070755979, 3: 3744309887, 4: 3361073861, 5: 3272315687, 6: 3656016253},
+    40: {2: 858766572539, 3: 826773202943, 4: 778496661209, 5: 1037838809407, 6: 901761954073},
+    48: {2: 191855360951747, 3: 151633492007653, 4: 186867577583579, 5: 244089383354989, 6: 185283557055743},
+    52: {2: 3442877901711959, 3: 3950079521973701, 4: 3149036747569649, 5: 3394067498552893, 6: 3608747147451269},
+    57: {2: 123555123343623317, 3: 87754760134550489, 4: 94246823930717543, 5: 111609884167583119, 6: 125514098085399031},
+    62: {2: 3705616012538069029, 3: 4038804205138201073, 4: 3715687105216723589, 5: 3657842105048996923, 6: 3668058433509738187},
+    64: {2: 11715253032429507389, 3: 14210970954071523311, 4: 16586216078265476311, 5: 11987133315365360137},
+}
+# rho_semiprime, per (window, c): polynomials 1..c-1 fail with the real budget, c succeeds, and halving the budget of polynomial c ALONE
+# changes the answer. The last three of window 48, c = 3 are the inputs of the review-4 mutant `.or_else(|| rho64(n, 3, 2048))`.
+SEMI_BUDGET_BY_C = {
+    40: {1: [785494032437], 2: [617870464901], 3: [1017988902043]},
+    48: {1: [235386527879791], 2: [175997835740579], 3: [211334099673119, 82603417514221, 178466756638447, 170472089705971]},
+    56: {1: [44265665937497101, 40741448522010157]},
+}
+SEMI_PLAN = {40: [(1, 2048), (2, 2048), (3, 2048)], 48: [(1, 4096), (2, 4096), (3, 4096)], 56: [(1, 8192)]}
+
+
+def _verify_literals():
+    """re-check every budget-sensitivity claim of BUDGET_BY_C / SEMI_BUDGET_BY_C with the mirror (python3 -m props.c01_rho)"""
+    bad = []
+    prev = 0
+    for bits, iters in ITERS:
+        for c, n in BUDGET_BY_C[bits].items():
+            if not (prev < n.bit_length() <= bits):
+                bad.append(("rho-bits", bits, c, n))
+            real = [rho64_spec(n, k, iters) for k in range(1, c + 1)]
+            if any(real[:-1]) or not real[-1]:
+                bad.append(("rho-real", bits, c, n))
+            half = next((r for r in (rho64_spec(n, k, iters // 2) for k in range(1, 10)) if r), None)
+            if half == real[-1]:
+                bad.append(("rho-half", bits, c, n))
+        prev = bits
+    for win, plan in SEMI_PLAN.items():
+        for c, ns in SEMI_BUDGET_BY_C[win].items():
+            for n in ns:
+                if (n >> 40 == 0) != (win == 40) or (win == 48 and n >> 48) or (win == 56 and n >> 48 == 0):
+                    bad.append(("semi-window", win, c, n))
+                real = [rho64_spec(n, k, it) for k, it in plan[:c]]
+                if any(real[:-1]) or not real[-1]:
+                    bad.append(("semi-real", win, c, n))
+                mut = next((r for r in (rho64_spec(n, k, it // 2 if k == c else it) for k, it in plan) if r), None)
+                if mut == real[-1]:
+                    bad.append(("semi-half", win, c, n))
+    return bad
+
+
 WINDOW_BITS = [24, 25, 32, 33, 40, 41, 48, 49, 52, 53, 57, 58, 62, 63, 64]
 
 
@@ -207,6 +263,14 @@ def cases(tier, rng, extended=False):
     for l in SEMI_BUDGET.values():
         for n in l:
             yield from mk("rho_semiprime", n, "budget")
+    for d in BUDGET_BY_C.values():
+        for n in d.values():
+            yield from mk("rho", n, "budget")
+    for d in SEMI_BUDGET_BY_C.values():
+        for l in d.values():
+            for n in l:
+                yield from mk("rho_semiprime", n, "budget")
+                yield from mk("rho", n, "budget")
     # top of the word: the eight odd values above 2^64 - 17 are outside the no-panic theorem (each has a prime factor <= 53)
     for k in range(1, 100, 2):
         yield from mk("rho", W - k, "top")
@@ -287,3 +351,8 @@ def model_followups(trace):
             exp = "none" if f[2] == "none" else f"some {f[2]} {f[3]}"
             out.append((f"rho {f[1]}", exp))
     return out
+
+
+if __name__ == "__main__":
+    b = _verify_literals()
+    print("budget literals:", "all claims hold" if not b else b)
